@@ -989,6 +989,14 @@ class Interp:
             return None
         else:
             return None
+        rx = self.models.irange(x) if not isinstance(x, K) else None
+        if rx is not None and all(isinstance(i_, K) and isinstance(i_.v, int) for i_ in items) and rx[1] - rx[0] < 1024:
+            # an integer known to lie in [lo, hi] against constants: a member when they cover the range, not one when none lies inside
+            have = {int(i_.v) for i_ in items}
+            if all(k_ in have for k_ in range(rx[0], rx[1] + 1)):
+                return True
+            if not any(rx[0] <= k_ <= rx[1] for k_ in have):
+                return False
         anyunk = False
         for it in items:
             if it is x:
